@@ -97,8 +97,14 @@ func VerifC03Select() {
 	nPat := int(verifParam("patterns", int64(len(c03Patterns))))
 	nQual := int(verifParam("quals", 6))
 	cfgs := make([]c03Cfg, nFlows)
+	pool := c03Patterns
+	if verifParam("patset", 0) == 1 {
+		// literal, literal + wildcard below it, top wildcard, host only
+		pool = [][]string{c03Patterns[0], c03Patterns[6], c03Patterns[5], c03Patterns[7]}
+		nPat = len(pool)
+	}
 	for i := range cfgs {
-		cfgs[i] = c03Cfg{pat: c03Patterns[verifChoose(fmt.Sprintf("f%d_pat", i), nPat)], qual: verifChoose(fmt.Sprintf("f%d_qual", i), nQual)}
+		cfgs[i] = c03Cfg{pat: pool[verifChoose(fmt.Sprintf("f%d_pat", i), nPat)], qual: verifChoose(fmt.Sprintf("f%d_qual", i), nQual)}
 	}
 	// the flow set is unordered (the load order is chosen separately): skip mirrored pairs
 	for i := 1; i < nFlows; i++ {
